@@ -30,6 +30,12 @@ use crate::{Certs, SMALL_WINDOW, Tp, connect_pair, fill, matches, with_watchdog}
 /// learns of the close by its idle timer, which is the protocol's answer, not a hang.
 pub const IDLE_SECS: u64 = 30;
 pub const WATCHDOG: Duration = Duration::from_secs(75);
+/// silence before a "quiet" finish (longer than max_ack_delay and the loopback PTO)
+const QUIET: Duration = Duration::from_millis(1200);
+/// end-of-stream after a quiet finish: far below the idle timeout, generous for a loaded machine
+const EOF_WATCHDOG: Duration = Duration::from_secs(6);
+/// datagram readers parked in separate tasks when a burst of as many datagrams arrives
+const BURST: u32 = 3;
 /// after two programs hung for the full watchdog the verdict is established: be less patient
 const SHORT_WATCHDOG: Duration = Duration::from_secs(8);
 static FULL_HANGS: std::sync::atomic::AtomicUsize = std::sync::atomic::AtomicUsize::new(0);
@@ -328,6 +334,8 @@ struct Shared {
     blocked_opens: Cell<u64>,
     blocked_dgrams: Cell<u64>,
     dgrams_got: Cell<u64>,
+    burst_got: Cell<u64>,
+    quiet_finishes: Cell<u64>,
     specs: Vec<StreamSpec>,
     /// what every unfinished task is currently waiting in (for the description of a hang)
     pending: RefCell<Option<Rc<RefCell<BTreeMap<String, &'static str>>>>>,
@@ -427,6 +435,31 @@ async fn writer(sh: Rc<Shared>, conn: Connection, s: u32) {
             break;
         }
     }
+    let mut quiet_fin = false;
+    if !failed && spec.end == "quietfin" {
+        // finish() on a QUIET connection: wait until the reader has everything (side channel: the
+        // shared observation), stay silent for longer than any ack delay, then finish. Nothing but
+        // finish() itself can make the connection worker transmit the FIN now.
+        sh.at(me.clone(), "waiting for the reader before a quiet finish");
+        let mut waited = 0;
+        loop {
+            let (r, w, closed) = {
+                let l = sh.ctx.0.borrow();
+                let o = l.obs.get(&s).cloned().unwrap_or_default();
+                (o.read, o.written, l.closed || o.stopped_by_reader)
+            };
+            if r == w || closed || waited > 20_000 {
+                quiet_fin = r == w && !closed;
+                break;
+            }
+            compio_runtime::time::sleep(Duration::from_millis(1)).await;
+            waited += 1;
+        }
+        if quiet_fin {
+            compio_runtime::time::sleep(QUIET).await;
+            sh.quiet_finishes.set(sh.quiet_finishes.get() + 1);
+        }
+    }
     if !failed {
         if spec.end == "reset" {
             let _ = send.reset(VarInt::from_u32(7));
@@ -439,6 +472,33 @@ async fn writer(sh: Rc<Shared>, conn: Connection, s: u32) {
         }
     }
     flag.set(true);
+    if quiet_fin && !failed {
+        // the reader has to see end-of-stream well before the idle timeout
+        sh.at(me.clone(), "waiting for the reader's end-of-stream after a quiet finish");
+        let t0 = std::time::Instant::now();
+        loop {
+            let (eof, excused) = {
+                let l = sh.ctx.0.borrow();
+                let o = l.obs.get(&s).cloned().unwrap_or_default();
+                (o.eof, l.closed || o.stopped_by_reader || !o.errs.is_empty())
+            };
+            if eof || excused {
+                break;
+            }
+            if t0.elapsed() > EOF_WATCHDOG {
+                sh.ctx.0.borrow_mut().violation(
+                    "eof-not-delivered",
+                    format!(
+                        "stream {s}: finish() was called on a quiet connection (all {} bytes read by the peer, {QUIET:?} of \
+                         silence) and the reader did not get end-of-stream within {EOF_WATCHDOG:?}",
+                        off
+                    ),
+                );
+                break;
+            }
+            compio_runtime::time::sleep(Duration::from_millis(2)).await;
+        }
+    }
     if !failed && spec.end != "reset" {
         // completes when the peer has acknowledged everything (or stopped the stream)
         sh.at(me.clone(), "stopped");
@@ -634,6 +694,8 @@ async fn run_program(env: &mut Option<Env>, prog: &Value, rep: &mut Report, trac
         blocked_opens: Cell::new(0),
         blocked_dgrams: Cell::new(0),
         dgrams_got: Cell::new(0),
+        burst_got: Cell::new(0),
+        quiet_finishes: Cell::new(0),
         specs: specs.clone(),
         pending: RefCell::new(None),
     });
@@ -655,10 +717,83 @@ async fn run_program(env: &mut Option<Env>, prog: &Value, rep: &mut Report, trac
     // datagrams run next to the streams
     let dg_done = Rc::new(Cell::new(false));
     let ds_done = Rc::new(Cell::new(dgrams == 0));
+    let ds_started = Rc::new(Cell::new(false));
     let mut dg_handles = vec![];
     if dgrams > 0 {
-        let (cx, cc, sh2, dsd) = (ctx.clone(), c.clone(), sh.clone(), ds_done.clone());
+        let (cx, cc, sc, sh2, dsd, done) = (ctx.clone(), c.clone(), s.clone(), sh.clone(), ds_done.clone(), dg_done.clone());
+        let dss = ds_started.clone();
         dg_handles.push(compio_runtime::spawn(async move {
+            // ---- phase 1: BURST readers parked in separate tasks, then a burst of BURST small
+            //      datagrams queued back to back (quinn-proto announces only the first one that
+            //      arrives into an empty queue: every parked reader has to be woken by it)
+            let mut readers = vec![];
+            for _ in 0..BURST {
+                let (cx, sc, sh3) = (cx.clone(), sc.clone(), sh2.clone());
+                readers.push(compio_runtime::spawn(async move {
+                    if let Ok(b) = sc.recv_datagram().await {
+                        cx.drecv(&b);
+                        sh3.burst_got.set(sh3.burst_got.get() + 1);
+                    }
+                }));
+            }
+            compio_runtime::time::sleep(Duration::from_millis(5)).await;
+            for b in 0..BURST {
+                match cc.send_datagram(dgram(20 + b)) {
+                    Ok(()) => cx.dsent(20 + b),
+                    Err(e) => cx.err(0, "send_datagram", &e.to_string(), false),
+                }
+            }
+            let t0 = std::time::Instant::now();
+            let mut grace: Option<std::time::Instant> = None;
+            loop {
+                let got = sh2.burst_got.get();
+                if got >= BURST as u64 || cx.0.borrow().closed {
+                    break;
+                }
+                let arrived = sc.stats().frame_rx.datagram.min(BURST as u64);
+                if t0.elapsed() > Duration::from_secs(3) {
+                    if got >= arrived {
+                        break; // lost on the way: fine
+                    }
+                    // delivered to the connection, never handed to a parked reader
+                    match grace {
+                        None => grace = Some(std::time::Instant::now()),
+                        Some(g) if g.elapsed() > Duration::from_millis(2500) => {
+                            cx.0.borrow_mut().violation(
+                                "datagram-receiver-not-woken",
+                                format!(
+                                    "{BURST} tasks were parked in recv_datagram() when a burst of datagrams arrived; {arrived} datagrams \
+                                     reached the connection but only {got} readers completed: the others were not woken"
+                                ),
+                            );
+                            break;
+                        }
+                        _ => {}
+                    }
+                }
+                compio_runtime::time::sleep(Duration::from_millis(2)).await;
+            }
+            // ---- phase 2: large datagrams through a send buffer that holds one of them
+            let (cx2, sc2, sh3, done2) = (cx.clone(), sc.clone(), sh2.clone(), done.clone());
+            let receiver = compio_runtime::spawn(async move {
+                let mut got = 0;
+                while got < dgrams {
+                    match sc2.recv_datagram().await {
+                        Ok(b) => {
+                            cx2.drecv(&b);
+                            if b.first().copied().unwrap_or(0) < 20 {
+                                got += 1;
+                                sh3.dgrams_got.set(got as u64);
+                            } else {
+                                sh3.burst_got.set(sh3.burst_got.get() + 1); // a straggler of the burst
+                            }
+                        }
+                        Err(_) => break, // the connection ended (end of program or the program's close)
+                    }
+                }
+                done2.set(true);
+            });
+            dss.set(true);
             for k in 0..dgrams {
                 let pend = Cell::new(false);
                 match note_pending(&pend, &pend, &sh2.blocked_dgrams, cc.send_datagram_wait(dgram(k))).await {
@@ -670,21 +805,10 @@ async fn run_program(env: &mut Option<Env>, prog: &Value, rep: &mut Report, trac
                 }
             }
             dsd.set(true);
-        }));
-        let (cx, sc, done, sh2) = (ctx.clone(), s.clone(), dg_done.clone(), sh.clone());
-        dg_handles.push(compio_runtime::spawn(async move {
-            let mut got = 0;
-            while got < dgrams {
-                match sc.recv_datagram().await {
-                    Ok(b) => {
-                        cx.drecv(&b);
-                        got += 1;
-                        sh2.dgrams_got.set(got as u64);
-                    }
-                    Err(_) => break, // the connection ended (end of program or the program's close)
-                }
+            let _ = receiver.await;
+            for r in readers {
+                let _ = r.await;
             }
-            done.set(true);
         }));
     } else {
         dg_done.set(true);
@@ -704,7 +828,7 @@ async fn run_program(env: &mut Option<Env>, prog: &Value, rep: &mut Report, trac
             waited += 1;
         }
         // the sender only ever waits for its own earlier datagram to leave the buffer
-        if !ds_done.get() && !ctx.0.borrow().closed {
+        if ds_started.get() && !ds_done.get() && !ctx.0.borrow().closed {
             compio_runtime::time::sleep(Duration::from_millis(1500)).await;
             if !ds_done.get() {
                 ctx.0.borrow_mut().violation(
@@ -715,15 +839,16 @@ async fn run_program(env: &mut Option<Env>, prog: &Value, rep: &mut Report, trac
         }
         // Lost on the way is fine. Delivered to the server's connection (DATAGRAM frames counted by
         // quinn-proto) but never handed to the blocked recv_datagram() is a lost wake-up.
-        if !dg_done.get() && !ctx.0.borrow().closed {
+        if ds_started.get() && !dg_done.get() && !ctx.0.borrow().closed {
+            let handed = |sh: &Shared| sh.dgrams_got.get() + sh.burst_got.get();
             let arrived = s.stats().frame_rx.datagram;
-            if arrived > sh.dgrams_got.get() {
+            if arrived > handed(&sh) {
                 compio_runtime::time::sleep(Duration::from_millis(1500)).await;
-                if sh.dgrams_got.get() < arrived && !dg_done.get() {
+                if handed(&sh) < arrived && !dg_done.get() {
                     let d = format!(
-                        "{arrived} datagrams reached the server's connection but the task blocked in recv_datagram() \
-                         received only {} of them: it was not woken",
-                        sh.dgrams_got.get()
+                        "{arrived} datagrams reached the server's connection but the tasks blocked in recv_datagram() \
+                         received only {} of them: a reader was not woken",
+                        handed(&sh)
                     );
                     ctx.0.borrow_mut().violation("datagram-receiver-not-woken", d);
                 }
@@ -755,7 +880,7 @@ async fn run_program(env: &mut Option<Env>, prog: &Value, rep: &mut Report, trac
                 let s = i as u32 + 1;
                 let o = l.obs.get(&s).cloned().unwrap_or_default();
                 let total: u64 = sp.chunks.iter().map(|&c| c as u64).sum();
-                let plain = sp.end == "fin" && sp.pace != "stop";
+                let plain = (sp.end == "fin" || sp.end == "quietfin") && sp.pace != "stop";
                 if plain && !(o.eof && o.read == total && o.written == total) {
                     l.violation("incomplete", format!("stream {s}: wrote {} of {total}, reader got {} bytes, eof={}", o.written, o.read, o.eof));
                 }
@@ -786,7 +911,7 @@ async fn run_program(env: &mut Option<Env>, prog: &Value, rep: &mut Report, trac
 
     let l = ctx.0.borrow();
     for (what, desc) in &l.bad {
-        let ty = if what == "hang" || what.starts_with("datagram-") && what.ends_with("-not-woken") { "hang" } else { "contract" };
+        let ty = if what == "hang" || what == "eof-not-delivered" || what.starts_with("datagram-") && what.ends_with("-not-woken") { "hang" } else { "contract" };
         rep.problem(
             ty,
             json!({"site": "quic-program", "what": what, "closed": was_closed}),
@@ -803,6 +928,8 @@ async fn run_program(env: &mut Option<Env>, prog: &Value, rep: &mut Report, trac
     stats.blocked_writes += sh.blocked_writes.get();
     stats.blocked_opens += sh.blocked_opens.get();
     stats.blocked_dgrams += sh.blocked_dgrams.get();
+    stats.quiet_finishes += sh.quiet_finishes.get();
+    stats.burst_readers += sh.burst_got.get();
     stats.bytes += l.obs.values().map(|o| o.read).sum::<u64>();
     stats.dgrams_sent += l.dsent.len() as u64;
     stats.dgrams_recv += l.drecv.len() as u64;
@@ -824,6 +951,8 @@ struct Stats {
     blocked_writes: u64,
     blocked_opens: u64,
     blocked_dgrams: u64,
+    quiet_finishes: u64,
+    burst_readers: u64,
     bytes: u64,
     dgrams_sent: u64,
     dgrams_recv: u64,
@@ -870,6 +999,8 @@ pub async fn run(progs: Vec<Value>, trace_path: &str, rep: &mut Report) {
     rep.set("blocked_writes", json!(stats.blocked_writes));
     rep.set("blocked_opens", json!(stats.blocked_opens));
     rep.set("blocked_dgram_sends", json!(stats.blocked_dgrams));
+    rep.set("quiet_finishes", json!(stats.quiet_finishes));
+    rep.set("burst_readers_completed", json!(stats.burst_readers));
     rep.set("bytes_read", json!(stats.bytes));
     rep.set("dgrams_sent", json!(stats.dgrams_sent));
     rep.set("dgrams_recv", json!(stats.dgrams_recv));
